@@ -12,6 +12,7 @@ import (
 	"fmt"
 	"go/token"
 	"go/types"
+	"os"
 	"sort"
 
 	"golang.org/x/tools/go/ssa"
@@ -137,7 +138,7 @@ func init() {
 				return err
 			}
 			var fns []*ssa.Function
-			for _, fn := range p.FuncsInPkg("pkg/diff") {
+			for _, fn := range scopeC04(p) {
 				fns = append(fns, fn)
 			}
 			r.Analysed = len(fns)
@@ -325,3 +326,11 @@ func init() {
 }
 
 var _ = types.Typ
+
+// scopeC04: pkg/diff; with WRGLCHECK_C04_ALL=1 (exploration only) every production function.
+func scopeC04(p *Program) []*ssa.Function {
+	if os.Getenv("WRGLCHECK_C04_ALL") == "1" {
+		return p.ProdFuncs()
+	}
+	return p.FuncsInPkg("pkg/diff")
+}
